@@ -55,7 +55,7 @@ def cases(tier, rng):
     yield {'dtype': 'mapper', 'default': None, 'via': 'direct',
            'ops': [['add_key', [0]], ['add_map', [0], 'a'], ['add_map', [0], {'t': [1, 2]}], ['get_map', [0], {'t': [1, 2]}],
                    ['iterate_map', [0]], ['add_key', [3, 0]], ['add_map', [3, 0], 'a'], ['get_map', [3, 0], 'b'], ['iterate_map', [3, 0]]]}
-    n = {'quick': 400, 'thorough': 10000, 'search': 500}[tier]
+    n = {'quick': 1200, 'thorough': 10000, 'search': 500}[tier]
     for _ in range(n):
         dt = rng.choice(['int', 'uint', 'float', 'bool', 'obj', 'obj', 'mapper'])
         nops = rng.choice([3, 8, 20, 60, 200])
